@@ -377,12 +377,19 @@ package dagsync
 //@   ensures-local count("call:sendSyncFinishedEvent") == 0
 
 // The idle-handler cleaner stops when the subscriber closes, and only touches the handler table under its mutex.
+// C08: a handler is removed only while the cleaner itself holds that handler's async and sync locks (so no
+// sync of its publisher is running or about to run) and no announcement is pending for it, and only once
+// it has expired; every lock taken is released again in each iteration.
 //@ func (*Subscriber).idleHandlerCleaner
-//@   property C15
-//@   requires subOK(s) && !held(s.handlersMutex)
+//@   property C15 C08
+//@   requires subOK(s) && !held(s.handlersMutex) && handlersFree(s)
 //@   shutdown closing
-//@   loop 1: invariant subOK(s) && !held(s.handlersMutex) && t != nil
-//@   loop 2: invariant subOK(s) && held(s.handlersMutex) && t != nil
+//@   ghost pend := zero("*announce.Announce")
+//@   at call Load#1: after ghost pend := result
+//@   at call delete#1: assert held(hnd.asyncMutex) && held(hnd.syncMutex) && pend == nil && count("call:Load") >= 1 && now > hnd.expires
+//@   loop 2: iteration ensures !held(hnd.asyncMutex) && !held(hnd.syncMutex)
+//@   loop 1: invariant subOK(s) && !held(s.handlersMutex) && t != nil && handlersFree(s)
+//@   loop 2: invariant subOK(s) && held(s.handlersMutex) && t != nil && handlersFree(s)
 
 //@ func (*Subscriber).Announce
 //@   property C15
